@@ -31,7 +31,9 @@
                                RPC accepted, tau < bo[t,p]:  p not in mesh'[t]; PRUNE(t) to p pushed or
                                kept for retry (if p has a queue); the node's backoff entry >= tau +
                                PruneBackoff; penalty delta = 1 + flood when the running backoff is a
-                               standard one (flood: tau < lp + GraftFlood), in {1,2} otherwise
+                               standard one (flood: tau < lp + GraftFlood), in {1,2} otherwise - also when a
+                               LATER branch of handleGraft (negative score, mesh at Dhi with an inbound peer)
+                               would refuse the GRAFT anyway
      P_C08_PruneStatesBackoff  every PRUNE pushed (or dropped at a full queue, or on the wire) to a
                                v1.1+ peer states the backoff: the unsubscribe backoff when caused by
                                Leave, else the prune backoff (a retried PRUNE keeps its value)
@@ -152,7 +154,12 @@ RecvGraft(a, e, t) ==
                                        since |-> Get(a.lp, key, 0), flood |-> fl, pen_delta |-> d, pen_checked |-> penOk,
                                        impl_backoff |-> ImplBo(E.st, t, p), bad |-> bad])
                   ELSE a
-        a2   == IF app THEN Rep(a1, "COV", [c |-> "refuse", flood |-> fl, kind |-> k, pen |-> penOk]) ELSE a1
+        \* which of the refusal branches that FOLLOW the backoff check in handleGraft would also have refused
+        \* this GRAFT (the penalty is due whatever else would refuse it; only peerFilter, unknown topic,
+        \* already-in-mesh and direct peer precede the backoff check, and those are excluded by `app`)
+        full == Cardinality(Members(Pre, t)) >= cfg.Dhi /\ ~Get(Pre.outbound, p, FALSE)
+        neg  == ScoreOf(Pre, p) < 0
+        a2   == IF app THEN Rep(a1, "COV", [c |-> "refuse", flood |-> fl, kind |-> k, pen |-> penOk, full |-> full, neg |-> neg]) ELSE a1
     IN IF app THEN Raise(a2, t, {p}, e.t + cfg.pb, "std", e.t) ELSE a2                         \* (4)
 
 \* a PRUNE entry received from e.p
@@ -266,14 +273,14 @@ Cover(a) ==
 TInit == /\ TLCSet(1, 0)
          /\ l = 1 /\ bo = <<>> /\ lp = <<>> /\ kind = <<>> /\ proto = <<>> /\ retry = {}
          /\ sentG = <<>> /\ recvG = <<>>
-         /\ cfg = [pb |-> 0, ub |-> 0, gf |-> 0, gray |-> 0, score |-> FALSE, penW |-> 0, D |-> 0, Dlo |-> 0, Dout |-> 0,
+         /\ cfg = [pb |-> 0, ub |-> 0, gf |-> 0, gray |-> 0, score |-> FALSE, penW |-> 0, D |-> 0, Dlo |-> 0, Dhi |-> 0, Dout |-> 0,
                    oppTicks |-> 0, oppThr |-> 0, scn |-> 0]
 
 TReset ==
     /\ More /\ E.act.a = "reset"
     /\ LET c == E.act.cfg IN
        cfg' = [pb |-> c.pruneBackoffMs, ub |-> c.unsubBackoffMs, gf |-> c.graftFloodMs, gray |-> c.thr.graylist,
-               score |-> c.score, penW |-> c.penWeight, D |-> c.D, Dlo |-> c.Dlo, Dout |-> c.Dout,
+               score |-> c.score, penW |-> c.penWeight, D |-> c.D, Dlo |-> c.Dlo, Dhi |-> c.Dhi, Dout |-> c.Dout,
                oppTicks |-> c.oppTicks, oppThr |-> c.thr.oppGraft, scn |-> E.scn]
     /\ bo' = <<>> /\ lp' = <<>> /\ kind' = <<>> /\ proto' = <<>> /\ retry' = {} /\ sentG' = <<>> /\ recvG' = <<>>
     /\ l' = l + 1
